@@ -28,6 +28,7 @@ import (
 	ocispec "github.com/opencontainers/image-spec/specs-go/v1"
 	"oras.land/oras-go/v2/errdef"
 	"oras.land/oras-go/v2/internal/ioutil"
+	"oras.land/oras-go/v2/internal/verifhook"
 )
 
 // bufPool is a pool of byte buffers that can be reused for copying content
@@ -91,6 +92,7 @@ func (s *Storage) Push(_ context.Context, expected ocispec.Descriptor, content i
 		return err
 	}
 
+	verifhook.Point("oci.Push")
 	// move the content from the temporary ingest file to the target path.
 	// since blobs are read-only once stored, if the target blob already exists,
 	// Rename() will fail for permission denied when trying to overwrite it.
@@ -114,6 +116,7 @@ func (s *Storage) Delete(ctx context.Context, target ocispec.Descriptor) error {
 		return fmt.Errorf("%s: %s: %w", target.Digest, target.MediaType, errdef.ErrInvalidDigest)
 	}
 	targetPath := filepath.Join(s.root, path)
+	verifhook.Point("oci.Delete")
 	err = os.Remove(targetPath)
 	if err != nil {
 		if errors.Is(err, fs.ErrNotExist) {
